@@ -295,8 +295,11 @@ def r5_exhaustive(ctx):
         raise AnchorMissing('json_io.Amp')
     fj = repo.method(amp, 'from_json')
     accepted = set()
+    # the local(s) that hold the type_def of the entry being loaded: defined from the 'type_def' key
+    td_locals = {n.targets[0].id for n in walk_no_nested(fj.node) if isinstance(n, ast.Assign) and isinstance(n.targets[0], ast.Name)
+                 and any(isinstance(c, ast.Constant) and c.value == 'type_def' for c in ast.walk(n.value))}
     for n in walk_no_nested(fj.node):
-        if isinstance(n, ast.Compare) and isinstance(n.left, ast.Name) and n.left.id == 'type_def' and \
+        if isinstance(n, ast.Compare) and isinstance(n.left, ast.Name) and n.left.id in td_locals and \
                 isinstance(n.ops[0], ast.Eq) and isinstance(n.comparators[0], ast.Constant):
             accepted.add(n.comparators[0].value)
     handled = set()
